@@ -20,7 +20,7 @@ ASSUMPTIONS = [
     "typing discipline D of DESIGN section 2 (literal widths 2/4/6/8/12/16 by value, +-&|^ and if-expressions the wider operand, * the smallest listed width >= 2*max)",
     "inputs on which an intermediate leaves its range are judged only on the low bits that wrap-around determines, and only for ring-fragment programs",
 ]
-CASE_TIMEOUT = {"quick": 60, "thorough": 180}
+CASE_TIMEOUT = {"quick": 30, "thorough": 120}
 EXH_LIMIT = {"quick": 12, "thorough": 14}
 
 
@@ -106,8 +106,9 @@ def check(case):
             if d:
                 k = sp.first(d)
                 row = sp.row(k)
+                pred = "c01_mod_nonliteral" if case.get("tag") in ("modvar", "modvar_const") else None
                 fails.append({"kind": "value", "msg": f"{pname}: return bit {j} is {(t >> k) & 1} but Python gives {(rt.exp[j] >> k) & 1} for {progsem.describe_row(args, row)}"
-                              f" ({sp.popcount(d)} of {sp.N} rows differ)", "pred": None, "witness": {"row": row, "bit": j}})
+                              f" ({sp.popcount(d)} of {sp.N} rows differ)", "pred": pred, "witness": {"row": row, "bit": j}})
                 break
         # truth_table() is an observable of C01 too
         if n <= 8 and n + len(qf.returns.bitvec) <= 20 and pname == "default":
